@@ -15,8 +15,9 @@ def decl_list(items):
 class C14(Prop):
     id = 'C14'
     theorems = ['C14.order', 'C14.find_fqn_spec', 'C14.find_any_spec', 'C14.each_once',
-                'C14.valid_ids', 'C14.notations']
-    proof_modules = ['DznProofs.C14']
+                'C14.valid_ids', 'C14.notations', 'C14.getSingleH_ok_iff', 'C14.getSingleH_absent_ok_iff',
+                'C14.getSingleH_err', 'C14.hasOne_iff_getSingle', 'C14.lookup_single']
+    proof_modules = ['DznProofs.C14', 'DznProofs.C14Single']
     level_rule = ('declaration sets over a 3-identifier alphabet nested to depth 3 (through the real parser), '
                   'searched names of 1..3 identifiers, all calling scopes; sampled beyond (depth<=6); '
                   'identifier candidates: ASCII, Unicode letters/digits, trailing newline, empty, '
@@ -46,6 +47,9 @@ class C14(Prop):
                                   'scope': [rng.choice(A) for _ in range(rng.randint(0, 3))]})
                 else:
                     finds.append({'op': 'find_any', 'ast': ast, 'name': name if rng.random() < 0.95 else []})
+            # what a caller does with the result: exactly-one tests with every type hint
+            finds.append({'op': 'find_single', 'ast': ast, 'name': [rng.choice(A) for _ in range(rng.randint(1, 2))],
+                          'scope': [rng.choice(A) for _ in range(rng.randint(0, 2))]})
         yield 'find', finds
         cands = ['', 'a', 'My.Project', 'My::Project', 'My_Project', 'My__', '_My_', '.My', 'My.', 'My::Ns::', '::Root',
                  'My . Ns', '&x', 'a\n', 'é', 'a1', '1a', 'a.b::c', 'a::b.c', 'ab٣', 'a..b', ':', '::', '.', 'a:b', 'ǅx',
@@ -79,6 +83,26 @@ class C14(Prop):
                 scribble(x)
             r = scope_resolution_order(NamespaceIds(list(case['name'])), NamespaceIds(list(case['scope'])))
             return [list(x.items) for x in r]
+        if op == 'find_single':
+            from dznpy import ast as A_
+            try:
+                fc = M.parse_real_fc(case['ast'])
+            except Exception as e:  # noqa
+                return {'err': err_tag(e)}
+            r = find_fqn(fc, NamespaceIds(list(case['name'])), NamespaceIds(list(case['scope'])))
+            out = []
+            for hint in (None, A_.Component, A_.Enum, A_.Extern, A_.Foreign, A_.Interface, A_.SubInt, A_.System, str):
+                one = {}
+                try:
+                    one['has'] = {'ok': r.has_one_instance(hint)}
+                except Exception as e:  # noqa
+                    one['has'] = {'err': err_tag(e)}
+                try:
+                    one['get'] = {'ok': decl_list([r.get_single_instance(hint)])[0]}
+                except Exception as e:  # noqa
+                    one['get'] = {'err': err_tag(e)}
+                out.append(one)
+            return out
         if op in ('find_fqn', 'find_any'):
             try:
                 fc = M.parse_real_fc(case['ast'])
@@ -108,11 +132,15 @@ class C14(Prop):
         raise ValueError(op)
 
     def shape(self, case, impl_out):
+        if case['op'] == 'find_single':
+            return canon(case)
         if case['op'] in ('find_fqn', 'find_any'):
             return canon(case) if impl_out else None
         return canon(case)
 
     def classify(self, case, impl_out):
+        if case['op'] == 'find_single' and isinstance(impl_out, list):
+            return 'find_single:' + ('one' if 'ok' in impl_out[0]['get'] else 'none-or-many')
         if case['op'] in ('find_fqn', 'find_any') and isinstance(impl_out, list):
             return f"{case['op']}:{min(len(impl_out), 3)}"
         if isinstance(impl_out, dict):
